@@ -289,7 +289,10 @@ class C17(Check):
                     spec.append([[[0], 1]])
             else:
                 spec = [[[[i % 2], rng.randint(1, 2)] for i in range(258 + k)], [[[1], 2], [[0], 1]]]
-            case = {"spec": spec, "filters": [], "builder": rng.choice([1, 2, 3]), "pre": [], "rm_m": 1, "rm_j": 1,
+            # (builders whose edge count is quadratic in the wide dimension are kept away: agent-task links all
+            # operations of a job pairwise, agent-task-with-jobs links all job nodes pairwise)
+            case = {"spec": spec, "filters": [], "builder": rng.choice([1, 3] if k % 2 == 0 else [2, 3]),
+                    "pre": [], "rm_m": 1, "rm_j": 1,
                     "picks": [[rng.randrange(1000), 0] for _ in range(rng.randint(4, 9))], "reset_at_end": 0}
             cases.append(case)
             self.count(case)
